@@ -178,11 +178,20 @@ class World(object):
         self.foreign_app = Application([('/', ns['ep'])], middlewares=[self.foreign_mw])
         # the reference's key is the *configured* secret (read from the middleware only when it made one up itself)
         if explicit_secret == 'unicode':
-            self.key = UKEY.encode('utf-8')
+            self._key = UKEY.encode('utf-8')
         elif explicit_secret:
-            self.key = KEY
+            self._key = KEY
         else:
-            self.key = self.mw.secret_key if isinstance(self.mw.secret_key, bytes) else self.mw.secret_key.encode('utf-8')
+            self._key = None          # the middleware made one up: read when first needed (it may do so lazily)
+
+    @property
+    def key(self):
+        if self._key is not None:
+            return self._key
+        k = self.mw.secret_key
+        if k is None:
+            return b'<no secret yet>'
+        return k if isinstance(k, bytes) else k.encode('utf-8')
 
     def install_clock(self):
         self._orig = (self.cm.time, self.sc.time)
